@@ -109,7 +109,7 @@ func classifyParseErr(msg string) string {
 }
 
 func runC14(e *env) error {
-	e.rep.Rule = "cases = (parse profile, object kind, parameter list, result list): ALL parameter lists of length 0..N over a 9-letter role alphabet (source-typed, second source, regex-context name, local-context name, converter-typed, update-named, unnamed, blank) x ALL result lists of length 0..M over {Out, builtin error, package-level type named error, int, a defined type with error's underlying type, the literal interface{Error() string}} x 10 ParseOpts profiles (converter method, with regex / update / local context, extend, extend from another output package, map|FUNC, default, struct method, multi-source), plus non-function, unexported and generic objects; real method.Parse on go/types objects built in memory vs Gv.Signature.parse. quick: (<=3 params x <=2 results) and (<=2 params x 3 results); thorough: <=4 x <=3. non-trivial = at least one parameter or result; distinct = canonical request"
+	e.rep.Rule = "cases = (parse profile, object kind, parameter list, result list): ALL parameter lists of length 0..N over a 9-letter role alphabet (source-typed, second source, regex-context name, local-context name, converter-typed, update-named, unnamed, blank) x ALL result lists of length 0..M over {Out, builtin error, package-level type named error, int, a defined type with error's underlying type, the literal interface{Error() string}} x 10 ParseOpts profiles (converter method, with regex / update / local context, extend, extend from another output package, map|FUNC, default, struct method, multi-source), plus non-function, unexported and generic objects; real method.Parse on go/types objects built in memory vs Gv.Signature.parse. quick: <=3 params x <=2 results over the base result alphabet, error look-alikes and 3 results with <=2 params; thorough: <=4 params x <=2 base results, <=3 params with look-alikes, 3 results with <=2 params. non-trivial = at least one parameter or result; distinct = canonical request"
 	w := newSigWorld()
 	maxP, maxR := 3, 2
 	if e.thorough {
@@ -267,11 +267,21 @@ func runC14(e *env) error {
 	for _, prof := range sigProfiles {
 		for _, ps := range paramLists {
 			for _, rs := range resultLists {
-				if len(rs) > maxR && len(ps) > 2 {
-					continue // quick tier: 3 results only with <= 2 parameters
-				}
-				if !e.thorough && len(ps) > 2 && (strings.Contains(strings.Join(rs, ","), "errl")) {
-					continue // quick tier: the error look-alikes only with <= 2 parameters
+				lookalike := strings.Contains(strings.Join(rs, ","), "errl")
+				if e.thorough {
+					// thorough: <=4 parameters x <=2 results over the base alphabet; <=3 parameters x <=2 results with the error
+					// look-alikes; 3 results with <=2 parameters
+					switch {
+					case len(rs) == 3 && len(ps) > 2:
+						continue
+					case lookalike && len(ps) > 3:
+						continue
+					}
+				} else {
+					// quick: <=3 parameters x <=2 results over the base alphabet; look-alikes and 3 results with <=2 parameters
+					if (len(rs) > maxR || lookalike) && len(ps) > 2 {
+						continue
+					}
 				}
 				one(prof, "func", ps, rs)
 			}
